@@ -13,7 +13,7 @@ import (
 	"verifharness/internal/proto"
 )
 
-// queue-facts (T-facts): `facts <file> <Func>` parses /repo/toolkit/queues/<file> with go/ast and prints
+// queue-facts (T-facts): `facts <file> <Func>` parses the file (see factFiles) of /repo/toolkit with go/ast and prints
 // the body of method <Func> in a canonical one-line form: atomic calls renamed (load/cas/swap/store),
 // pointer casts, `&` and parentheses dropped, `for {}` -> loop{}, if/else skeleton kept, `:=` -> `=`.
 // The Lean models hold the same text as the program they were transcribed from
@@ -49,6 +49,8 @@ func canonExpr(e ast.Expr) string {
 		return canonExpr(x.X) + "." + x.Sel.Name
 	case *ast.BinaryExpr:
 		return canonExpr(x.X) + x.Op.String() + canonExpr(x.Y)
+	case *ast.IndexExpr:
+		return canonExpr(x.X)
 	case *ast.CompositeLit:
 		return canonNew(x)
 	case *ast.CallExpr:
@@ -181,16 +183,35 @@ func canonStmt(s ast.Stmt) string {
 		return "{ " + canonBlock(x) + " }"
 	case *ast.BranchStmt:
 		return strings.ToLower(x.Tok.String())
+	case *ast.DeferStmt:
+		return "defer " + canonCall(x.Call)
+	case *ast.GoStmt:
+		if fl, ok := x.Call.Fun.(*ast.FuncLit); ok {
+			return "go{ " + canonBlock(fl.Body) + " }"
+		}
+		return "go " + canonCall(x.Call)
+	case *ast.RangeStmt:
+		return "range(" + canonExpr(x.X) + "){ " + canonBlock(x.Body) + " }"
+	case *ast.SendStmt:
+		return "send(" + canonExpr(x.Chan) + "," + canonExpr(x.Value) + ")"
 	}
 	return fmt.Sprintf("unknown<%T>", s)
 }
 
+// factFiles: the files whose shared-memory / lock operation order the Lean models were transcribed from
+var factFiles = map[string]string{
+	"lock_free.go":      "queues/lock_free.go",
+	"mpsc.go":           "queues/mpsc.go",
+	"ring_unbounded.go": "buffer/ring_unbounded.go",
+}
+
 func canonFunc(file, fn string) string {
-	if strings.ContainsAny(file, "/\\") || !strings.HasSuffix(file, ".go") {
+	rel, ok := factFiles[file]
+	if !ok {
 		return "bad-op"
 	}
 	fset := token.NewFileSet()
-	f, err := parser.ParseFile(fset, filepath.Join(repoDir(), "toolkit", "queues", file), nil, 0)
+	f, err := parser.ParseFile(fset, filepath.Join(repoDir(), "toolkit", filepath.FromSlash(rel)), nil, 0)
 	if err != nil {
 		return "bad-op"
 	}
@@ -220,6 +241,7 @@ func factsGen(rng *proto.RNG, tier string, shard, nshards int, w *bufio.Writer) 
 	}
 	fmt.Fprintln(w, "# case 0")
 	for _, l := range []string{"facts lock_free.go Push", "facts lock_free.go Pop", "facts mpsc.go Push", "facts mpsc.go Pop", "facts mpsc.go Empty",
+		"facts ring_unbounded.go Write", "facts ring_unbounded.go Close", "facts ring_unbounded.go process",
 		"facts mpsc.go Peek", "facts nofile.go Push", "facts ../queues/mpsc.go Push", "facts", "facts mpsc.go"} {
 		fmt.Fprintln(w, l)
 	}
